@@ -1,11 +1,16 @@
-/- line-protocol driver for C14: `drv_c14 trace` / `drv_c14 pair` (see Driver/DriverProcCmd.lean).
+/- line-protocol driver for C14: `drv_c14 trace` / `drv_c14 pair` (see Driver/DriverProcCmd.lean),
+   `drv_c14 argv` / `drv_c14 deptext` / `drv_c14 parse` (see Driver/C14ArgvCmd.lean).
    Core Lean only (nothing imported here may import Mathlib, or the executable will not link). -/
 import ChibiVerif.Driver.DriverProcCmd
+import ChibiVerif.Driver.C14ArgvCmd
 
 def main (args : List String) : IO UInt32 := do
   match args with
   | "trace" :: _ => ChibiVerif.Driver.DriverProcCmd.traceMain
   | "pair" :: _ => ChibiVerif.Driver.DriverProcCmd.pairMain
+  | "argv" :: _ => ChibiVerif.Driver.C14ArgvCmd.argvMain
+  | "deptext" :: _ => ChibiVerif.Driver.C14ArgvCmd.depMain
+  | "parse" :: _ => ChibiVerif.Driver.C14ArgvCmd.parseMain
   | _ =>
-    IO.eprintln "usage: drv_c14 trace|pair"
+    IO.eprintln "usage: drv_c14 trace|pair|argv|deptext|parse"
     return 2
